@@ -830,3 +830,20 @@ Proof.
   intros. split; [apply spec_objs_perm|]. split; [apply spec_objs_sorted|].
   intros k. apply sort_desc_stable.
 Qed.
+
+(* offset / maximum select the corresponding slice of the SAME ordered list (no side condition) *)
+Lemma map_slice : forall {A B} (f : A -> B) off mx l, map f (slice off mx l) = slice off mx (map f l).
+Proof.
+  intros A B f off mx l. unfold slice.
+  destruct off as [o|]; destruct mx as [m|]; rewrite ?skipn_map, ?firstn_map; reflexivity.
+Qed.
+
+Lemma locate_slice_lemma : forall allowed objs fs off mx full,
+  nonneg off -> nonneg mx ->
+  locate_model allowed objs fs None None = Ok full ->
+  locate_model allowed objs fs off mx = Ok (slice off mx full).
+Proof.
+  intros allowed objs fs off mx full Ho Hm H. unfold locate_model in *.
+  destruct (locate_objs allowed objs fs) as [l| |]; try discriminate.
+  simpl in H. inversion H; subst. rewrite page_slice by assumption. rewrite map_slice. reflexivity.
+Qed.
